@@ -420,9 +420,30 @@ impl Family for EvalCmp {
         let (prog, _, src) = self.make(rng);
         // class of the program for the signature of a worker death: the evaluator is
         // known to crash (instead of panicking) on some programs with string values
+        // (a value whose type merely contains a string, e.g. a `String?` field that is `None`,
+        // goes through the same drop function)
+        fn has_str(p: &crate::rg::ast::Program, t: &Ty, fuel: u32) -> bool {
+            if fuel == 0 {
+                return false;
+            }
+            match t {
+                Ty::Str => true,
+                Ty::Opt(x) | Ty::List(x) => has_str(p, x, fuel - 1),
+                Ty::Verdict(a, b) => has_str(p, a, fuel - 1) || has_str(p, b, fuel - 1),
+                _ => {
+                    if let Some(fs) = p.record_fields(t) {
+                        return fs.iter().any(|(_, ft)| has_str(p, ft, fuel - 1));
+                    }
+                    if let Some(vs) = p.enum_variants(t) {
+                        return vs.iter().any(|(_, ts)| ts.iter().any(|ft| has_str(p, ft, fuel - 1)));
+                    }
+                    false
+                }
+            }
+        }
         let mut strings = false;
         for f in &prog.fns {
-            crate::rg::generate::visit_block(&f.body, &mut |e| strings |= e.ty == Ty::Str);
+            crate::rg::generate::visit_block(&f.body, &mut |e| strings |= has_str(&prog, &e.ty, 6));
         }
         let hint = if strings { "evaluator/program-with-string-values" } else { "evaluator/scalar-program" };
         Some(J::obj().set("source", src).set("sig_hint", hint))
